@@ -415,6 +415,11 @@ def parseMessage(rawMessage, oobFDs):
             pass
 
     if m.signature:
+        # a SIGNATURE is at most 255 characters long; a header field of
+        # another type (a plain string, say) does not get around that
+        if not isinstance(m.signature, str) or len(m.signature) > 255:
+            raise error.MarshallingError('Invalid message signature')
+
         nbytes, m.body = marshal.unmarshal(
             m.signature,
             m.rawBody,
